@@ -15,6 +15,7 @@ from ticcmon import ser
 HERE = os.path.dirname(os.path.dirname(os.path.abspath(__file__)))
 PY = "/venv/bin/python"
 MAX_PAR = int(os.environ.get("VERIF_JOBS", "16"))
+RETRIED = []
 
 
 def ensure_deps():
@@ -79,6 +80,7 @@ def run_shards(prop, specs, workdir, timeout):
         with open(sf, "w") as f:
             f.write(ser.dumps(spec))
         env = mode_env(spec.get("mode", "interp"), base)
+        env["TICCMON_SHARD_TIMEOUT"] = str(int(spec.get("timeout", timeout)))
         for k, v in (spec.get("env") or {}).items():
             env[k] = str(v)
         log = open(os.path.join(workdir, "log%d.txt" % i), "w")
@@ -99,7 +101,21 @@ def run_shards(prop, specs, workdir, timeout):
                     r["p"].kill()
                     r["p"].wait()
                     r["log"].close()
-                    results[r["i"]] = {"watchdog": True, "spec_name": r["spec"].get("name")}
+                    try:
+                        tail = open(os.path.join(workdir, "log%d.txt" % r["i"])).read()[-2500:]
+                    except OSError:
+                        tail = ""
+                    if not r["spec"].get("_retried") and not r["spec"].get("no_retry"):
+                        # a wall-clock stall decides nothing: the shard is run once more (its cases are deterministic); a shard that
+                        # stalls twice is reported as inconclusive with the stacks of both attempts
+                        spec2 = dict(r["spec"])
+                        spec2["_retried"] = True
+                        spec2["_first_stall"] = tail[-1200:]
+                        RETRIED.append(spec2.get("name"))
+                        pending.append((r["i"], spec2))
+                        continue
+                    results[r["i"]] = {"watchdog": True, "spec_name": r["spec"].get("name"),
+                                       "log_tail": (r["spec"].get("_first_stall", "") + "\n--- second attempt ---\n" + tail)}
                 else:
                     still.append(r)
                 continue
@@ -188,7 +204,7 @@ def finish(prop, mod, tier, seed, specs, results, wall):
             merged["inconclusive"].append("shard %s crashed: %s" % (spec.get("name"), (r or {}).get("log_tail", "")[-600:]))
             continue
         if r.get("watchdog"):
-            merged["inconclusive"].append("shard %s hit its wall-clock watchdog" % spec.get("name"))
+            merged["inconclusive"].append("shard %s hit its wall-clock watchdog; stacks shortly before: %s" % (spec.get("name"), r.get("log_tail", "")[-1800:]))
             continue
         merged["evaluations"] += int(r.get("evaluations", 0))
         merged["violations"].extend(r.get("violations", []))
@@ -238,6 +254,7 @@ def finish(prop, mod, tier, seed, specs, results, wall):
         "monitor_counters": ser.plain(merged["counters"]),
         "not_completed": ser.plain(merged["not_completed"]),
         "shards": len(specs),
+        "shards_rerun_after_a_wall_clock_stall": list(RETRIED),
         "shard_wall_s": {spec.get("name", "?"): (r or {}).get("shard_wall_s") for spec, r in zip(specs, results)},
         "known_findings_observed": {k: v["n"] for k, v in known_lines.items()},
         "inconclusive_reasons": merged["inconclusive"][:10],
